@@ -122,6 +122,15 @@ impl Property for C05 {
         let jr = t.draw(right.cols.len());
         left.cols[jl].1 = jty;
         right.cols[jr].1 = jty;
+        // (no further draw, so that the rest of the case is what it was:) one INT join in five has a REAL column on the other side -
+        // numbers pair by value, 1 with 1.0
+        if jty == Ty::Int && (jl + 2 * jr) % 5 == 4 {
+            if jl % 2 == 0 {
+                right.cols[jr].1 = Ty::Real;
+            } else {
+                left.cols[jl].1 = Ty::Real;
+            }
+        }
         // one case in ten: dozens of keys and partners (wide key domain, up to 40 + 60 lines); drawn last so that the
         // rest of the case does not depend on how much tape the lines take
         let wide = t.chance(1, 10);
